@@ -86,7 +86,12 @@ func (c *CDCServer) getCDCHandler() http.Handler {
 			metrics.TaskRequestCountVec.WithLabelValues(metrics.UnknownTypeLabel, metrics.UnmarshalErrorStatusLabel).Inc()
 			return
 		}
-		metrics.TaskRequestCountVec.WithLabelValues(cdcRequest.RequestType, metrics.TotalStatusLabel).Inc()
+		requestTypeLabel := cdcRequest.RequestType
+		if _, ok := requestHandlers[requestTypeLabel]; !ok {
+			// arbitrary client strings must not become label values (prometheus panics on invalid utf-8)
+			requestTypeLabel = metrics.UnknownTypeLabel
+		}
+		metrics.TaskRequestCountVec.WithLabelValues(requestTypeLabel, metrics.TotalStatusLabel).Inc()
 
 		response := c.handleRequest(cdcRequest, writer)
 
